@@ -212,6 +212,408 @@ structure It where
   buf : Nat := 0
 deriving Repr, Inhabited
 
+/-- the operations that run no user code: one step of the interpreter without recursion -/
+def stepSimple (s : LSt) (op : Op) : Option (LSt × String) :=
+  let ok (s : LSt) (r : String) : Option (LSt × String) := some (s, r)
+  let disconnect (s : LSt) (p : Option Nat) : LSt :=
+    match p with
+    | some cid => removeCell s cid
+    | none => s
+  match op with
+  | .newT t =>
+    match aget s.T t with
+    | some _ => ok s "exists"
+    | none => let (o, s) := s.fresh; ok { s with T := aset s.T t o } "ok"
+  | .delT t =>
+    match aget s.T t with
+    | none => ok s "dead"
+    | some o => ok (invalidateTrackable { s with T := adel s.T t } o) "ok"
+  | .notifyT t =>
+    match aget s.T t with
+    | none => ok s "dead"
+    | some o => ok (invalidateTrackable s o) "ok"
+  | .cpT j i =>
+    match aget s.T i with
+    | none => ok s "dead"
+    | some _ =>
+      match aget s.T j with
+      | some _ => ok s "exists"
+      | none => let (o, s) := s.fresh; ok { s with T := aset s.T j o } "ok"
+  | .mvT j i =>
+    match aget s.T i with
+    | none => ok s "dead"
+    | some oi =>
+      match aget s.T j with
+      | some _ => ok s "exists"
+      | none =>
+        let (o, s) := s.fresh
+        ok (invalidateTrackable { s with T := aset s.T j o } oi) "ok"
+  | .asgT j i =>
+    match aget s.T j, aget s.T i with
+    | some oj, some _ => ok (if j = i then s else invalidateTrackable s oj) "ok"
+    | _, _ => ok s "dead"
+  | .masgT j i =>
+    match aget s.T j, aget s.T i with
+    | some oj, some oi => ok (if j = i then s else invalidateTrackable (invalidateTrackable s oj) oi) "ok"
+    | _, _ => ok s "dead"
+  | .mkS i ty spec =>
+    match aget s.S i with
+    | some _ => ok s "exists"
+    | none =>
+      if ty ≠ "I" && ty ≠ "V" then ok s "badtype" else
+      let isVoid := ty = "V"
+      match mkFun s isVoid spec with
+      | .error e => ok s e
+      | .ok (fn, s') =>
+        let v : SlotVar := { isVoid := isVoid, slot := { blocked := false, rep := some { call := true, fn := some fn } },
+                             taint := specTaint s spec }
+        ok { s' with S := aset s'.S i v } "ok"
+  | .mkS0 i ty =>
+    match aget s.S i with
+    | some _ => ok s "exists"
+    | none =>
+      if ty ≠ "I" && ty ≠ "V" then ok s "badtype" else
+      ok { s with S := aset s.S i { isVoid := ty = "V", slot := {} } } "ok"
+  | .cpS j i =>
+    match aget s.S i with
+    | none => ok s "dead"
+    | some v =>
+      match aget s.S j with
+      | some _ => ok s "exists"
+      | none => ok { s with S := aset s.S j { isVoid := v.isVoid, slot := v.slot.copy, taint := v.taint } } "ok"
+  | .mvS j i =>
+    match aget s.S i with
+    | none => ok s "dead"
+    | some v =>
+      match aget s.S j with
+      | some _ => ok s "exists"
+      | none =>
+        if v.incall > 0 then ok s "busy" else
+        let (d, src) := v.slot.move
+        ok { s with S := aset (aset s.S i { v with slot := src }) j { isVoid := v.isVoid, slot := d, taint := v.taint } } "ok"
+  | .asgS j i =>
+    match aget s.S j, aget s.S i with
+    | some d, some v =>
+      if d.isVoid != v.isVoid then ok s "badtype" else
+      if d.incall > 0 then ok s "busy" else
+      let taint := if d.taint < v.taint then v.taint else d.taint
+      let sameRep := j = i || (d.slot.rep.isNone && v.slot.rep.isNone)
+      let nd : SlotB :=
+        if sameRep then { d.slot with blocked := v.slot.blocked }
+        else if v.slot.empty then { d.slot with rep := none }
+        else { blocked := v.slot.blocked, rep := v.slot.copy.rep }
+      ok { s with S := aset s.S j { d with slot := nd, taint := taint } } "ok"
+    | _, _ => ok s "dead"
+  | .masgS j i =>
+    match aget s.S j, aget s.S i with
+    | some d, some v =>
+      if d.isVoid != v.isVoid then ok s "badtype" else
+      if d.incall > 0 || v.incall > 0 then ok s "busy" else
+      let taint := if d.taint < v.taint then v.taint else d.taint
+      let sameRep := j = i || (d.slot.rep.isNone && v.slot.rep.isNone)
+      if sameRep then ok { s with S := aset s.S j { d with slot := { d.slot with blocked := v.slot.blocked }, taint := taint } } "ok"
+      else if v.slot.empty then ok { s with S := aset s.S j { d with slot := { d.slot with rep := none }, taint := taint } } "ok"
+      else
+        let s := { s with S := aset s.S i { v with slot := { blocked := false, rep := none } } }
+        ok { s with S := aset s.S j { d with slot := { blocked := v.slot.blocked, rep := v.slot.rep }, taint := taint } } "ok"
+    | _, _ => ok s "dead"
+  | .setS i spec =>
+    match aget s.S i with
+    | none => ok s "dead"
+    | some d =>
+      if d.incall > 0 then ok s "busy" else
+      match mkFun s d.isVoid spec with
+      | .error e => ok s e
+      | .ok (fn, s') =>
+        let t := specTaint s spec
+        let taint := if d.taint < t then t else d.taint
+        ok { s' with S := aset s'.S i { d with slot := { blocked := false, rep := some { call := true, fn := some fn } }, taint := taint } } "ok"
+  | .delS i =>
+    match aget s.S i with
+    | none => ok s "dead"
+    | some v => if v.incall > 0 then ok s "busy" else ok { s with S := adel s.S i } "ok"
+  | .discS i =>
+    match aget s.S i with
+    | none => ok s "dead"
+    | some v => ok { s with S := aset s.S i { v with slot := v.slot.disconnectRep } } "ok"
+  | .blockS i b =>
+    match aget s.S i with
+    | none => ok s "dead"
+    | some v => ok { s with S := aset s.S i { v with slot := { v.slot with blocked := b } } } (bstr v.slot.blocked)
+  | .blockedSq i =>
+    match aget s.S i with
+    | none => ok s "dead"
+    | some v => ok s (bstr v.slot.blocked)
+  | .emptySq i =>
+    match aget s.S i with
+    | none => ok s "dead"
+    | some v => ok s (bstr v.slot.empty)
+  | .newG i fl =>
+    match fl with
+    | none => ok s "badtype"
+    | some fl =>
+      match aget s.G i with
+      | some _ => ok s "exists"
+      | none =>
+        let (o, s) := s.fresh
+        let (t, s) := s.fresh
+        ok { s with G := aset s.G i { obj := o, fl := fl, impl := none, trk := t, lvl := i } } "ok"
+  | .cpG j i =>
+    match aget s.G i with
+    | none => ok s "dead"
+    | some _ =>
+      match aget s.G j with
+      | some _ => ok s "exists"
+      | none =>
+        match ensureSig s i with
+        | none => ok s "dead"
+        | some (s, im) =>
+          match aget s.G i with
+          | none => ok s "dead"
+          | some h =>
+            let (o, s) := s.fresh
+            let (t, s) := s.fresh
+            ok { s with G := aset s.G j { obj := o, fl := h.fl, impl := some im, trk := t, lvl := h.lvl } } "ok"
+  | .mvG j i =>
+    match aget s.G i with
+    | none => ok s "dead"
+    | some h0 =>
+      match aget s.G j with
+      | some _ => ok s "exists"
+      | none =>
+        if h0.fl.isAcc then
+          match ensureSig s i with
+          | none => ok s "dead"
+          | some (s, im) =>
+            let (o, s) := s.fresh
+            let (t, s) := s.fresh
+            ok { s with G := aset s.G j { obj := o, fl := h0.fl, impl := some im, trk := t, lvl := h0.lvl } } "ok"
+        else
+          let (o, s) := s.fresh
+          let (t, s) := s.fresh
+          let s := { s with G := aset (aset s.G i { h0 with impl := none }) j
+                                { obj := o, fl := h0.fl, impl := h0.impl, trk := t, lvl := h0.lvl } }
+          ok (if h0.fl.isTrackable then invalidateTrackable s h0.trk else s) "ok"
+  | .asgG j i =>
+    match aget s.G j, aget s.G i with
+    | some d, some h =>
+      if d.fl ≠ h.fl then ok s "badtype" else
+      if d.lvl ≠ h.lvl then ok s "badlevel" else
+      if d.impl = h.impl then ok s "ok" else
+      match ensureSig s i with
+      | none => ok s "dead"
+      | some (s, im) =>
+        let s := { s with G := aset s.G j { d with impl := some im } }
+        ok (match d.impl with | some old => gcSig s old | none => s) "ok"
+    | _, _ => ok s "dead"
+  | .masgG j i =>
+    match aget s.G j, aget s.G i with
+    | some d, some h =>
+      if d.fl ≠ h.fl then ok s "badtype" else
+      if d.lvl ≠ h.lvl then ok s "badlevel" else
+      if h.fl.isAcc then
+        if d.impl = h.impl then ok s "ok" else
+        match ensureSig s i with
+        | none => ok s "dead"
+        | some (s, im) =>
+          let s := { s with G := aset s.G j { d with impl := some im } }
+          ok (match d.impl with | some old => gcSig s old | none => s) "ok"
+      else if j = i then ok s "ok" else
+        let s := { s with G := aset (aset s.G j { d with impl := h.impl }) i { h with impl := none } }
+        let s := match d.impl with | some old => gcSig s old | none => s
+        ok (if h.fl.isTrackable && h.impl.isSome then invalidateTrackable s h.trk else s) "ok"
+    | _, _ => ok s "dead"
+  | .delG i =>
+    match aget s.G i with
+    | none => ok s "dead"
+    | some h =>
+      if h.everFwd && !h.fl.isTrackable then ok s "pinned" else
+      let s := if h.fl.isTrackable then invalidateTrackable s h.trk else s
+      let s := { s with G := adel s.G i }
+      ok (match h.impl with | some im => gcSig s im | none => s) "ok"
+  | .conn k g sv first mv =>
+    match aget s.G g, aget s.S sv with
+    | some h, some v =>
+      if h.fl.isVoid != v.isVoid then ok s "badtype" else
+      if v.taint ≥ (h.lvl : Int) then ok s "badorder" else
+      if mv && v.incall > 0 then ok s "busy" else
+      match ensureSig s g with
+      | none => ok s "dead"
+      | some (s, im) =>
+        let (cellSlot, s) :=
+          if mv then
+            let (d, src) := v.slot.move
+            (d, { s with S := aset s.S sv { v with slot := src } })
+          else (v.slot.copy, s)
+        let (s, cid) := insertCell s im first cellSlot
+        ok { s with C := aset s.C k (some cid) } "ok"
+    | _, _ => ok s "dead"
+  | .connfn k g spec first =>
+    match aget s.G g with
+    | none => ok s "dead"
+    | some h =>
+      match mkFun s h.fl.isVoid spec with
+      | .error e => ok s e
+      | .ok (fn, s') =>
+        if specTaint s spec ≥ (h.lvl : Int) then ok s' "badorder" else
+        match ensureSig s' g with
+        | none => ok s "dead"
+        | some (s', im) =>
+          let (s', cid) := insertCell s' im first { blocked := false, rep := some { call := true, fn := some fn } }
+          ok { s' with C := aset s'.C k (some cid) } "ok"
+  | .clear g =>
+    match aget s.G g with
+    | none => ok s "dead"
+    | some h =>
+      match h.impl with
+      | none => ok s "ok"
+      | some im =>
+        match aget s.sigs im with
+        | none => ok s "ok"
+        | some x => ok (setSig s im (x.remove s.k1 s.k2 (fun _ => true))) "ok"
+  | .sizeq g =>
+    match aget s.G g with
+    | none => ok s "dead"
+    | some h =>
+      match h.impl with
+      | none => ok s "0"
+      | some im =>
+        match aget s.sigs im with
+        | none => ok s "0"
+        | some x => ok s (if x.active > 0 then "*" else toString x.cells.length)
+  | .emptyGq g =>
+    match aget s.G g with
+    | none => ok s "dead"
+    | some h =>
+      match h.impl with
+      | none => ok s "1"
+      | some im =>
+        match aget s.sigs im with
+        | none => ok s "1"
+        | some x => ok s (if x.active > 0 then "*" else bstr x.cells.isEmpty)
+  | .blockedGq g =>
+    match aget s.G g with
+    | none => ok s "dead"
+    | some h =>
+      match h.impl with
+      | none => ok s "1"
+      | some im =>
+        match aget s.sigs im with
+        | none => ok s "1"
+        | some x => ok s (if x.active > 0 then "*" else bstr (x.cells.all (·.slot.blocked)))
+  | .blockG g b =>
+    match aget s.G g with
+    | none => ok s "dead"
+    | some h =>
+      match h.impl with
+      | none => ok s "ok"
+      | some im =>
+        match aget s.sigs im with
+        | none => ok s "ok"
+        | some x => ok (setSig s im { x with cells := x.cells.map (fun c => { c with slot := { c.slot with blocked := b } }) }) "ok"
+  | .newC i =>
+    match aget s.C i with
+    | some _ => ok s "exists"
+    | none => ok { s with C := aset s.C i none } "ok"
+  | .cpC j i =>
+    match aget s.C i with
+    | none => ok s "dead"
+    | some p =>
+      match aget s.C j with
+      | some _ => ok s "exists"
+      | none => ok { s with C := aset s.C j p } "ok"
+  | .asgC j i =>
+    match aget s.C j, aget s.C i with
+    | some _, some p => ok { s with C := aset s.C j p } "ok"
+    | _, _ => ok s "dead"
+  | .delC i =>
+    match aget s.C i with
+    | none => ok s "dead"
+    | some _ => ok { s with C := adel s.C i } "ok"
+  | .disc i =>
+    match aget s.C i with
+    | none => ok s "dead"
+    | some p => ok (disconnect s p) "ok"
+  | .connectedq i =>
+    match aget s.C i with
+    | none => ok s "dead"
+    | some p => ok s (bstr (connConnected s p))
+  | .emptyCq i =>
+    match aget s.C i with
+    | none => ok s "dead"
+    | some p => ok s (bstr (!connConnected s p))
+  | .blockedCq i =>
+    match aget s.C i with
+    | none => ok s "dead"
+    | some p => ok s (connBlockedStr s p)
+  | .blockC i b =>
+    match aget s.C i with
+    | none => ok s "dead"
+    | some p => ok (match p with | some cid => updCell s cid (fun c => { c with slot := { c.slot with blocked := b } }) | none => s)
+                   (connBlockedStr s p)
+  | .newK0 i =>
+    match aget s.K i with
+    | some _ => ok s "exists"
+    | none => ok { s with K := aset s.K i none } "ok"
+  | .newK i c =>
+    match aget s.C c with
+    | none => ok s "dead"
+    | some p =>
+      match aget s.K i with
+      | some _ => ok s "exists"
+      | none => ok { s with K := aset s.K i p } "ok"
+  | .asgKC i c =>
+    match aget s.K i, aget s.C c with
+    | some old, some p => ok { (disconnect s old) with K := aset s.K i p } "ok"
+    | _, _ => ok s "dead"
+  | .mvK j i =>
+    match aget s.K i with
+    | none => ok s "dead"
+    | some p =>
+      match aget s.K j with
+      | some _ => ok s "exists"
+      | none => ok { s with K := aset (aset s.K i none) j p } "ok"
+  | .masgK j i =>
+    match aget s.K j, aget s.K i with
+    | some old, some p =>
+      if j = i then ok s "self" else
+      ok { (disconnect s old) with K := aset (aset s.K i none) j p } "ok"
+    | _, _ => ok s "dead"
+  | .swapK i j =>
+    match aget s.K i, aget s.K j with
+    | some a, some b => ok { s with K := aset (aset s.K i b) j a } "ok"
+    | _, _ => ok s "dead"
+  | .relK c k =>
+    match aget s.K k with
+    | none => ok s "dead"
+    | some p => ok { s with K := aset s.K k none, C := aset s.C c p } "ok"
+  | .discK i =>
+    match aget s.K i with
+    | none => ok s "dead"
+    | some p => ok (disconnect s p) "ok"
+  | .delK i =>
+    match aget s.K i with
+    | none => ok s "dead"
+    | some p => ok (disconnect { s with K := adel s.K i } p) "ok"
+  | .connectedKq i =>
+    match aget s.K i with
+    | none => ok s "dead"
+    | some p => ok s (bstr (connConnected s p))
+  | .blockedKq i =>
+    match aget s.K i with
+    | none => ok s "dead"
+    | some p => ok s (connBlockedStr s p)
+  | .blockK i b =>
+    match aget s.K i with
+    | none => ok s "dead"
+    | some p => ok (match p with | some cid => updCell s cid (fun c => { c with slot := { c.slot with blocked := b } }) | none => s)
+                   (connBlockedStr s p)
+  | .liveq fid => ok s (if s.depth > 0 then "*" else toString (liveCount s fid))
+  | .mark => ok s "ok"
+  | .allocsq => ok s "*"
+  | .bad => ok s "badop"
+  | _ => none
+
 mutual
 
 def invokeFun : Nat → Prog → LSt → Fun → Nat → Option (LSt × Outcome × Nat)
@@ -386,139 +788,7 @@ def execOp : Nat → Prog → LSt → Op → Option (LSt × Except Unit String)
   | 0, _, _, _ => none
   | f+1, P, s, op =>
     let ok (s : LSt) (r : String) : Option (LSt × Except Unit String) := some (s, .ok r)
-    let disconnect (s : LSt) (p : Option Nat) : LSt :=
-      match p with
-      | some cid => removeCell s cid
-      | none => s
     match op with
-    | .newT t =>
-      match aget s.T t with
-      | some _ => ok s "exists"
-      | none => let (o, s) := s.fresh; ok { s with T := aset s.T t o } "ok"
-    | .delT t =>
-      match aget s.T t with
-      | none => ok s "dead"
-      | some o => ok (invalidateTrackable { s with T := adel s.T t } o) "ok"
-    | .notifyT t =>
-      match aget s.T t with
-      | none => ok s "dead"
-      | some o => ok (invalidateTrackable s o) "ok"
-    | .cpT j i =>
-      match aget s.T i with
-      | none => ok s "dead"
-      | some _ =>
-        match aget s.T j with
-        | some _ => ok s "exists"
-        | none => let (o, s) := s.fresh; ok { s with T := aset s.T j o } "ok"
-    | .mvT j i =>
-      match aget s.T i with
-      | none => ok s "dead"
-      | some oi =>
-        match aget s.T j with
-        | some _ => ok s "exists"
-        | none =>
-          let (o, s) := s.fresh
-          ok (invalidateTrackable { s with T := aset s.T j o } oi) "ok"
-    | .asgT j i =>
-      match aget s.T j, aget s.T i with
-      | some oj, some _ => ok (if j = i then s else invalidateTrackable s oj) "ok"
-      | _, _ => ok s "dead"
-    | .masgT j i =>
-      match aget s.T j, aget s.T i with
-      | some oj, some oi => ok (if j = i then s else invalidateTrackable (invalidateTrackable s oj) oi) "ok"
-      | _, _ => ok s "dead"
-    | .mkS i ty spec =>
-      match aget s.S i with
-      | some _ => ok s "exists"
-      | none =>
-        if ty ≠ "I" && ty ≠ "V" then ok s "badtype" else
-        let isVoid := ty = "V"
-        match mkFun s isVoid spec with
-        | .error e => ok s e
-        | .ok (fn, s') =>
-          let v : SlotVar := { isVoid := isVoid, slot := { blocked := false, rep := some { call := true, fn := some fn } },
-                               taint := specTaint s spec }
-          ok { s' with S := aset s'.S i v } "ok"
-    | .mkS0 i ty =>
-      match aget s.S i with
-      | some _ => ok s "exists"
-      | none =>
-        if ty ≠ "I" && ty ≠ "V" then ok s "badtype" else
-        ok { s with S := aset s.S i { isVoid := ty = "V", slot := {} } } "ok"
-    | .cpS j i =>
-      match aget s.S i with
-      | none => ok s "dead"
-      | some v =>
-        match aget s.S j with
-        | some _ => ok s "exists"
-        | none => ok { s with S := aset s.S j { isVoid := v.isVoid, slot := v.slot.copy, taint := v.taint } } "ok"
-    | .mvS j i =>
-      match aget s.S i with
-      | none => ok s "dead"
-      | some v =>
-        match aget s.S j with
-        | some _ => ok s "exists"
-        | none =>
-          if v.incall > 0 then ok s "busy" else
-          let (d, src) := v.slot.move
-          ok { s with S := aset (aset s.S i { v with slot := src }) j { isVoid := v.isVoid, slot := d, taint := v.taint } } "ok"
-    | .asgS j i =>
-      match aget s.S j, aget s.S i with
-      | some d, some v =>
-        if d.isVoid != v.isVoid then ok s "badtype" else
-        if d.incall > 0 then ok s "busy" else
-        let taint := if d.taint < v.taint then v.taint else d.taint
-        let sameRep := j = i || (d.slot.rep.isNone && v.slot.rep.isNone)
-        let nd : SlotB :=
-          if sameRep then { d.slot with blocked := v.slot.blocked }
-          else if v.slot.empty then { d.slot with rep := none }
-          else { blocked := v.slot.blocked, rep := v.slot.copy.rep }
-        ok { s with S := aset s.S j { d with slot := nd, taint := taint } } "ok"
-      | _, _ => ok s "dead"
-    | .masgS j i =>
-      match aget s.S j, aget s.S i with
-      | some d, some v =>
-        if d.isVoid != v.isVoid then ok s "badtype" else
-        if d.incall > 0 || v.incall > 0 then ok s "busy" else
-        let taint := if d.taint < v.taint then v.taint else d.taint
-        let sameRep := j = i || (d.slot.rep.isNone && v.slot.rep.isNone)
-        if sameRep then ok { s with S := aset s.S j { d with slot := { d.slot with blocked := v.slot.blocked }, taint := taint } } "ok"
-        else if v.slot.empty then ok { s with S := aset s.S j { d with slot := { d.slot with rep := none }, taint := taint } } "ok"
-        else
-          let s := { s with S := aset s.S i { v with slot := { blocked := false, rep := none } } }
-          ok { s with S := aset s.S j { d with slot := { blocked := v.slot.blocked, rep := v.slot.rep }, taint := taint } } "ok"
-      | _, _ => ok s "dead"
-    | .setS i spec =>
-      match aget s.S i with
-      | none => ok s "dead"
-      | some d =>
-        if d.incall > 0 then ok s "busy" else
-        match mkFun s d.isVoid spec with
-        | .error e => ok s e
-        | .ok (fn, s') =>
-          let t := specTaint s spec
-          let taint := if d.taint < t then t else d.taint
-          ok { s' with S := aset s'.S i { d with slot := { blocked := false, rep := some { call := true, fn := some fn } }, taint := taint } } "ok"
-    | .delS i =>
-      match aget s.S i with
-      | none => ok s "dead"
-      | some v => if v.incall > 0 then ok s "busy" else ok { s with S := adel s.S i } "ok"
-    | .discS i =>
-      match aget s.S i with
-      | none => ok s "dead"
-      | some v => ok { s with S := aset s.S i { v with slot := v.slot.disconnectRep } } "ok"
-    | .blockS i b =>
-      match aget s.S i with
-      | none => ok s "dead"
-      | some v => ok { s with S := aset s.S i { v with slot := { v.slot with blocked := b } } } (bstr v.slot.blocked)
-    | .blockedSq i =>
-      match aget s.S i with
-      | none => ok s "dead"
-      | some v => ok s (bstr v.slot.blocked)
-    | .emptySq i =>
-      match aget s.S i with
-      | none => ok s "dead"
-      | some v => ok s (bstr v.slot.empty)
     | .callS i arg =>
       match aget s.S i with
       | none => ok s "dead"
@@ -539,119 +809,6 @@ def execOp : Nat → Prog → LSt → Op → Option (LSt × Except Unit String)
             | .exc => some (s, .error ())
             | .ok => ok s (showRes v.isVoid r)
         | _ => ok s (showRes v.isVoid 0)
-    | .newG i fl =>
-      match fl with
-      | none => ok s "badtype"
-      | some fl =>
-        match aget s.G i with
-        | some _ => ok s "exists"
-        | none =>
-          let (o, s) := s.fresh
-          let (t, s) := s.fresh
-          ok { s with G := aset s.G i { obj := o, fl := fl, impl := none, trk := t, lvl := i } } "ok"
-    | .cpG j i =>
-      match aget s.G i with
-      | none => ok s "dead"
-      | some _ =>
-        match aget s.G j with
-        | some _ => ok s "exists"
-        | none =>
-          match ensureSig s i with
-          | none => ok s "dead"
-          | some (s, im) =>
-            match aget s.G i with
-            | none => ok s "dead"
-            | some h =>
-              let (o, s) := s.fresh
-              let (t, s) := s.fresh
-              ok { s with G := aset s.G j { obj := o, fl := h.fl, impl := some im, trk := t, lvl := h.lvl } } "ok"
-    | .mvG j i =>
-      match aget s.G i with
-      | none => ok s "dead"
-      | some h0 =>
-        match aget s.G j with
-        | some _ => ok s "exists"
-        | none =>
-          if h0.fl.isAcc then
-            match ensureSig s i with
-            | none => ok s "dead"
-            | some (s, im) =>
-              let (o, s) := s.fresh
-              let (t, s) := s.fresh
-              ok { s with G := aset s.G j { obj := o, fl := h0.fl, impl := some im, trk := t, lvl := h0.lvl } } "ok"
-          else
-            let (o, s) := s.fresh
-            let (t, s) := s.fresh
-            let s := { s with G := aset (aset s.G i { h0 with impl := none }) j
-                                  { obj := o, fl := h0.fl, impl := h0.impl, trk := t, lvl := h0.lvl } }
-            ok (if h0.fl.isTrackable then invalidateTrackable s h0.trk else s) "ok"
-    | .asgG j i =>
-      match aget s.G j, aget s.G i with
-      | some d, some h =>
-        if d.fl ≠ h.fl then ok s "badtype" else
-        if d.lvl ≠ h.lvl then ok s "badlevel" else
-        if d.impl = h.impl then ok s "ok" else
-        match ensureSig s i with
-        | none => ok s "dead"
-        | some (s, im) =>
-          let s := { s with G := aset s.G j { d with impl := some im } }
-          ok (match d.impl with | some old => gcSig s old | none => s) "ok"
-      | _, _ => ok s "dead"
-    | .masgG j i =>
-      match aget s.G j, aget s.G i with
-      | some d, some h =>
-        if d.fl ≠ h.fl then ok s "badtype" else
-        if d.lvl ≠ h.lvl then ok s "badlevel" else
-        if h.fl.isAcc then
-          if d.impl = h.impl then ok s "ok" else
-          match ensureSig s i with
-          | none => ok s "dead"
-          | some (s, im) =>
-            let s := { s with G := aset s.G j { d with impl := some im } }
-            ok (match d.impl with | some old => gcSig s old | none => s) "ok"
-        else if j = i then ok s "ok" else
-          let s := { s with G := aset (aset s.G j { d with impl := h.impl }) i { h with impl := none } }
-          let s := match d.impl with | some old => gcSig s old | none => s
-          ok (if h.fl.isTrackable && h.impl.isSome then invalidateTrackable s h.trk else s) "ok"
-      | _, _ => ok s "dead"
-    | .delG i =>
-      match aget s.G i with
-      | none => ok s "dead"
-      | some h =>
-        if h.everFwd && !h.fl.isTrackable then ok s "pinned" else
-        let s := if h.fl.isTrackable then invalidateTrackable s h.trk else s
-        let s := { s with G := adel s.G i }
-        ok (match h.impl with | some im => gcSig s im | none => s) "ok"
-    | .conn k g sv first mv =>
-      match aget s.G g, aget s.S sv with
-      | some h, some v =>
-        if h.fl.isVoid != v.isVoid then ok s "badtype" else
-        if v.taint ≥ (h.lvl : Int) then ok s "badorder" else
-        if mv && v.incall > 0 then ok s "busy" else
-        match ensureSig s g with
-        | none => ok s "dead"
-        | some (s, im) =>
-          let (cellSlot, s) :=
-            if mv then
-              let (d, src) := v.slot.move
-              (d, { s with S := aset s.S sv { v with slot := src } })
-            else (v.slot.copy, s)
-          let (s, cid) := insertCell s im first cellSlot
-          ok { s with C := aset s.C k (some cid) } "ok"
-      | _, _ => ok s "dead"
-    | .connfn k g spec first =>
-      match aget s.G g with
-      | none => ok s "dead"
-      | some h =>
-        match mkFun s h.fl.isVoid spec with
-        | .error e => ok s e
-        | .ok (fn, s') =>
-          if specTaint s spec ≥ (h.lvl : Int) then ok s' "badorder" else
-          match ensureSig s' g with
-          | none => ok s "dead"
-          | some (s', im) =>
-            let (s', cid) := insertCell s' im first { blocked := false, rep := some { call := true, fn := some fn } }
-            ok { s' with C := aset s'.C k (some cid) } "ok"
     | .emit g arg strat try_ =>
       match aget s.G g with
       | none => ok s "dead"
@@ -663,157 +820,10 @@ def execOp : Nat → Prog → LSt → Op → Option (LSt × Except Unit String)
         | some (s, .exc, _) => if try_ then ok s "caught" else some (s, .error ())
         | some (s, .ok, r) => ok s (showRes h.fl.isVoid r)
     | .throw_ => some (s, .error ())
-    | .clear g =>
-      match aget s.G g with
-      | none => ok s "dead"
-      | some h =>
-        match h.impl with
-        | none => ok s "ok"
-        | some im =>
-          match aget s.sigs im with
-          | none => ok s "ok"
-          | some x => ok (setSig s im (x.remove s.k1 s.k2 (fun _ => true))) "ok"
-    | .sizeq g =>
-      match aget s.G g with
-      | none => ok s "dead"
-      | some h =>
-        match h.impl with
-        | none => ok s "0"
-        | some im =>
-          match aget s.sigs im with
-          | none => ok s "0"
-          | some x => ok s (if x.active > 0 then "*" else toString x.cells.length)
-    | .emptyGq g =>
-      match aget s.G g with
-      | none => ok s "dead"
-      | some h =>
-        match h.impl with
-        | none => ok s "1"
-        | some im =>
-          match aget s.sigs im with
-          | none => ok s "1"
-          | some x => ok s (if x.active > 0 then "*" else bstr x.cells.isEmpty)
-    | .blockedGq g =>
-      match aget s.G g with
-      | none => ok s "dead"
-      | some h =>
-        match h.impl with
-        | none => ok s "1"
-        | some im =>
-          match aget s.sigs im with
-          | none => ok s "1"
-          | some x => ok s (if x.active > 0 then "*" else bstr (x.cells.all (·.slot.blocked)))
-    | .blockG g b =>
-      match aget s.G g with
-      | none => ok s "dead"
-      | some h =>
-        match h.impl with
-        | none => ok s "ok"
-        | some im =>
-          match aget s.sigs im with
-          | none => ok s "ok"
-          | some x => ok (setSig s im { x with cells := x.cells.map (fun c => { c with slot := { c.slot with blocked := b } }) }) "ok"
-    | .newC i =>
-      match aget s.C i with
-      | some _ => ok s "exists"
-      | none => ok { s with C := aset s.C i none } "ok"
-    | .cpC j i =>
-      match aget s.C i with
-      | none => ok s "dead"
-      | some p =>
-        match aget s.C j with
-        | some _ => ok s "exists"
-        | none => ok { s with C := aset s.C j p } "ok"
-    | .asgC j i =>
-      match aget s.C j, aget s.C i with
-      | some _, some p => ok { s with C := aset s.C j p } "ok"
-      | _, _ => ok s "dead"
-    | .delC i =>
-      match aget s.C i with
-      | none => ok s "dead"
-      | some _ => ok { s with C := adel s.C i } "ok"
-    | .disc i =>
-      match aget s.C i with
-      | none => ok s "dead"
-      | some p => ok (disconnect s p) "ok"
-    | .connectedq i =>
-      match aget s.C i with
-      | none => ok s "dead"
-      | some p => ok s (bstr (connConnected s p))
-    | .emptyCq i =>
-      match aget s.C i with
-      | none => ok s "dead"
-      | some p => ok s (bstr (!connConnected s p))
-    | .blockedCq i =>
-      match aget s.C i with
-      | none => ok s "dead"
-      | some p => ok s (connBlockedStr s p)
-    | .blockC i b =>
-      match aget s.C i with
-      | none => ok s "dead"
-      | some p => ok (match p with | some cid => updCell s cid (fun c => { c with slot := { c.slot with blocked := b } }) | none => s)
-                     (connBlockedStr s p)
-    | .newK0 i =>
-      match aget s.K i with
-      | some _ => ok s "exists"
-      | none => ok { s with K := aset s.K i none } "ok"
-    | .newK i c =>
-      match aget s.C c with
-      | none => ok s "dead"
-      | some p =>
-        match aget s.K i with
-        | some _ => ok s "exists"
-        | none => ok { s with K := aset s.K i p } "ok"
-    | .asgKC i c =>
-      match aget s.K i, aget s.C c with
-      | some old, some p => ok { (disconnect s old) with K := aset s.K i p } "ok"
-      | _, _ => ok s "dead"
-    | .mvK j i =>
-      match aget s.K i with
-      | none => ok s "dead"
-      | some p =>
-        match aget s.K j with
-        | some _ => ok s "exists"
-        | none => ok { s with K := aset (aset s.K i none) j p } "ok"
-    | .masgK j i =>
-      match aget s.K j, aget s.K i with
-      | some old, some p =>
-        if j = i then ok s "self" else
-        ok { (disconnect s old) with K := aset (aset s.K i none) j p } "ok"
-      | _, _ => ok s "dead"
-    | .swapK i j =>
-      match aget s.K i, aget s.K j with
-      | some a, some b => ok { s with K := aset (aset s.K i b) j a } "ok"
-      | _, _ => ok s "dead"
-    | .relK c k =>
-      match aget s.K k with
-      | none => ok s "dead"
-      | some p => ok { s with K := aset s.K k none, C := aset s.C c p } "ok"
-    | .discK i =>
-      match aget s.K i with
-      | none => ok s "dead"
-      | some p => ok (disconnect s p) "ok"
-    | .delK i =>
-      match aget s.K i with
-      | none => ok s "dead"
-      | some p => ok (disconnect { s with K := adel s.K i } p) "ok"
-    | .connectedKq i =>
-      match aget s.K i with
-      | none => ok s "dead"
-      | some p => ok s (bstr (connConnected s p))
-    | .blockedKq i =>
-      match aget s.K i with
-      | none => ok s "dead"
-      | some p => ok s (connBlockedStr s p)
-    | .blockK i b =>
-      match aget s.K i with
-      | none => ok s "dead"
-      | some p => ok (match p with | some cid => updCell s cid (fun c => { c with slot := { c.slot with blocked := b } }) | none => s)
-                     (connBlockedStr s p)
-    | .liveq fid => ok s (if s.depth > 0 then "*" else toString (liveCount s fid))
-    | .mark => ok s "ok"
-    | .allocsq => ok s "*"
-    | .bad => ok s "badop"
+    | op =>
+      match stepSimple s op with
+      | some (s, r) => ok s r
+      | none => ok s "badop"
 
 end
 
